@@ -47,7 +47,8 @@ fn put(be: &Arc<InMemoryBackend>, tpe: FileType, data: &[u8]) -> Id {
     id
 }
 
-/// apply one probe to stored bytes: t<j> truncate to j, x<j> extend by j bytes, f<pos>.<bit> flip
+/// apply one probe to stored bytes: t<j> truncate to j, x<j> extend by j bytes, f<pos>.<bit> flip,
+/// j<n> replace by the plaintext JSON {"forged":n}
 fn apply_probe(p: &str, s: &[u8]) -> Vec<u8> {
     let mut v = s.to_vec();
     match &p[..1] {
@@ -56,6 +57,8 @@ fn apply_probe(p: &str, s: &[u8]) -> Vec<u8> {
             let n: usize = p[1..].parse().unwrap();
             v.extend((0..n).map(|i| (i * 37 + 11) as u8));
         }
+        // forged plaintext: the stored bytes are replaced by hand-written JSON
+        "j" => v = format!("{{\"forged\":{}}}", &p[1..]).into_bytes(),
         "f" => {
             let (a, b) = p[1..].split_once('.').unwrap();
             let pos: usize = a.parse().unwrap();
